@@ -38,7 +38,7 @@ def parse_type(node):
     if isinstance(node, ast.Constant) and node.value is None:
         return ("none",)
     if isinstance(node, ast.Name):
-        if node.id in ("int", "float", "bool"):
+        if node.id in ("int", "float", "bool", "xfloat"):
             return (node.id,)
         if node.id == "NoneT":
             return ("none",)
@@ -86,6 +86,7 @@ class ContractDef:
         self.modifies = []
         self.loops = {}
         self.entry = []
+        self.defs = []  # ghost definitions evaluated before `requires` (also at call sites)
         self.exit = []
         self.call_anchors = {}  # (callee short name, ordinal, 'before'|'after') -> stmts
         self.stmt_anchors = {}  # (statement text, ordinal, 'before'|'after') -> stmts
@@ -164,6 +165,8 @@ def _parse_body(cd, body, allow_ghost_body):
             cd.modifies.extend(a.id for a in st.value.args)
         elif cn == "decreases":
             cd.decreases = st.value.args[0]
+        elif wn == "defs":
+            cd.defs.extend(st.body)
         elif wn == "entry":
             cd.entry.extend(st.body)
         elif wn == "exit_":
@@ -221,8 +224,9 @@ class ContractDB:
             args = node.args.args + node.args.kwonlyargs
             for a in args:
                 params.append((a.arg, parse_type(a.annotation)))
-            if dname == "spec":
+            if dname in ("spec", "spec_inline"):
                 sd = SpecDef(node.name)
+                sd.inline = dname == "spec_inline"
                 sd.params = params
                 sd.ret = parse_type(node.returns) if node.returns is not None else ("int",)
                 sd.file = fn
